@@ -22,12 +22,12 @@
     }
 //# ob name=roundtrip_u64 fn=value::serialize::ValueSerializer+value::deserialize kind=complete stmt="every u64 serialises to the U64 repr with the same value and deserialises back to itself"
 //# ob name=roundtrip_i64 fn=value::serialize::ValueSerializer+value::deserialize kind=complete stmt="every i64 round-trips (I64 repr)"
-//# ob name=roundtrip_u32 stubs=fmt_format_unreachable fn=value::serialize::ValueSerializer+value::deserialize kind=complete stmt="every u32 round-trips"
-//# ob name=roundtrip_i32 stubs=fmt_format_unreachable fn=value::serialize::ValueSerializer+value::deserialize kind=complete stmt="every i32 round-trips"
-//# ob name=roundtrip_u8 stubs=fmt_format_unreachable fn=value::serialize::ValueSerializer+value::deserialize kind=complete stmt="every u8 round-trips"
-//# ob name=roundtrip_i8 stubs=fmt_format_unreachable fn=value::serialize::ValueSerializer+value::deserialize kind=complete stmt="every i8 round-trips"
-//# ob name=roundtrip_u16 stubs=fmt_format_unreachable fn=value::serialize::ValueSerializer+value::deserialize kind=complete stmt="every u16 round-trips"
-//# ob name=roundtrip_i16 stubs=fmt_format_unreachable fn=value::serialize::ValueSerializer+value::deserialize kind=complete stmt="every i16 round-trips"
+//# ob name=roundtrip_u32 stubs=format_unreachable fn=value::serialize::ValueSerializer+value::deserialize kind=complete stmt="every u32 round-trips"
+//# ob name=roundtrip_i32 stubs=format_unreachable fn=value::serialize::ValueSerializer+value::deserialize kind=complete stmt="every i32 round-trips"
+//# ob name=roundtrip_u8 stubs=format_unreachable fn=value::serialize::ValueSerializer+value::deserialize kind=complete stmt="every u8 round-trips"
+//# ob name=roundtrip_i8 stubs=format_unreachable fn=value::serialize::ValueSerializer+value::deserialize kind=complete stmt="every i8 round-trips"
+//# ob name=roundtrip_u16 stubs=format_unreachable fn=value::serialize::ValueSerializer+value::deserialize kind=complete stmt="every u16 round-trips"
+//# ob name=roundtrip_i16 stubs=format_unreachable fn=value::serialize::ValueSerializer+value::deserialize kind=complete stmt="every i16 round-trips"
     roundtrip_int!(roundtrip_u64, u64, U64);
     roundtrip_int!(roundtrip_i64, i64, I64);
     // the narrower widths have a conversion-failure path (serde's visit_u64 -> invalid_value -> Error::custom ->
@@ -177,6 +177,33 @@
         let seq = vec![Value::from_safe_string("a".into()), obj.clone(), Value::UNDEFINED, Value::from_safe_string("b".into())];
         let back: Vec<Value> = Value::from(Serde(&seq)).try_iter().unwrap().collect();
         assert!(back[0].is_safe() && back[1].downcast_object_ref::<Dyn>().is_some() && back[2].is_undefined() && back[3].as_str() == Some("b"));
+        // a Serialize impl that itself converts something into a template value while an outer conversion is running
+        // (nested Value::from(Serde(..)) / context!): embedded Values before, between and after it keep their identity
+        struct Nested(u8);
+        impl Serialize for Nested {
+            fn serialize<S: serde::Serializer>(&self, ser: S) -> Result<S::Ok, S::Error> {
+                let inner = Value::from(Serde(&(self.0, "inner")));
+                let ctx = crate::context! { n => self.0, v => Value::from_safe_string("<n>".into()) };
+                let _ = (inner.len(), ctx.len());
+                ser.serialize_u8(self.0)
+            }
+        }
+        #[derive(Serialize)]
+        struct Around { before: Value, nested1: Nested, between: Value, list: Vec<Value>, nested2: Nested, after_safe: Value, after_undef: Value, after_obj: Value }
+        let around = Around { before: Value::from_safe_string("<b>".into()), nested1: Nested(1), between: Value::from_safe_string("<m>".into()),
+                              list: vec![Value::UNDEFINED, obj.clone(), Value::from_safe_string("<l>".into())], nested2: Nested(2),
+                              after_safe: Value::from_safe_string("<a>".into()), after_undef: Value::UNDEFINED, after_obj: obj.clone() };
+        for round in 0..2 {
+            let v = if round == 0 { Value::from(Serde(&around)) } else { crate::context! { around => Value::from(Serde(&around)) }.get_attr("around").unwrap() };
+            for key in ["before", "between", "after_safe"] { let x = v.get_attr(key).unwrap(); assert!(x.is_safe(), "embedded safe string {key} lost its safe flag next to a nested conversion: {x:?}"); }
+            assert!(v.get_attr("after_undef").unwrap().is_undefined(), "embedded undefined after a nested conversion came back as {:?}", v.get_attr("after_undef"));
+            assert!(v.get_attr("after_obj").unwrap().downcast_object_ref::<Dyn>().is_some(), "embedded object after a nested conversion lost its identity");
+            let items: Vec<Value> = v.get_attr("list").unwrap().try_iter().unwrap().collect();
+            assert!(items[0].is_undefined() && items[1].downcast_object_ref::<Dyn>().is_some() && items[2].is_safe(), "{items:?}");
+            assert!(v.get_attr("nested1").unwrap() == Value::from(1) && v.get_attr("nested2").unwrap() == Value::from(2));
+        }
+        // and the state is clean afterwards: a plain serde_json serialisation of a safe string is just the string
+        assert!(serde_json::to_string(&Value::from_safe_string("<p>".into())).unwrap() == "\"<p>\"");
         // tojson
         let env = crate::Environment::new();
         let vals: Vec<Value> = vec![
